@@ -1564,6 +1564,15 @@ class H2Connection:
         events = self.state_machine.process_input(
             ConnectionInputs.RECV_HEADERS
         )
+        if (self.config.client_side and
+                frame.stream_id not in self.streams and
+                frame.stream_id % 2 == 0 and
+                frame.stream_id > self.highest_inbound_stream_id):
+            # Servers open streams with PUSH_PROMISE only: HEADERS on an even
+            # stream that was never promised is not a request for us to serve.
+            raise ProtocolError(
+                "Received HEADERS on a stream that was never promised"
+            )
         stream = self._get_or_create_stream(
             frame.stream_id, AllowedStreamIDs(not self.config.client_side)
         )
